@@ -56,11 +56,11 @@ fn compile(game: &str, text: &str, sources: Vec<ImageSrc>) -> Result<Vec<u8>, St
 impl Property for C17 {
     fn id(&self) -> &'static str { "C17" }
     fn rule(&self) -> &'static str {
-        "ANM files (TH06..TH18) with 1..3 embedded textures in formats ARGB8888 / RGB565 / ARGB4444 / GRAY8, dimensions 1..64 (thorough: all of 1..64 x 1..64 sampled; 256x256 sweeps holding every 16-bit value and every 8-bit value), image offsets 0..8 (TH11+), pixel data random / consecutive / boundary values, built by compiling a source with placeholder images and overwriting the THTX data: (a) extract to a directory, recompile the decompiled text with that directory as image source: every THTX section and the whole file are identical; (b) recompile with the ANM itself as image source: identical; (c) two or three sources (ANM files and directories) supplying the same paths with different pixels, in every order: the last source's pixels are written; (d) two entries sharing one path, ANM source: textures are matched in order of appearance. non-trivial = at least one texture compared"
+        "ANM files (TH06..TH18) with 1..3 embedded textures in formats ARGB8888 / RGB565 / ARGB4444 / GRAY8, dimensions 1..64 (thorough: all of 1..64 x 1..64 sampled; 256x256 sweeps holding every 16-bit value and every 8-bit value), image offsets 0..8 (TH11+), pixel data random / consecutive / boundary values, built by compiling a source with placeholder images and overwriting the THTX data: (a) extract to a directory, recompile the decompiled text with that directory as image source: every THTX section and the whole file are identical; (b) recompile with the ANM itself as image source: identical; (c) two or three sources (ANM files and directories) supplying the same paths with different pixels, in every order: the last source's pixels are written; (d) 2..5 entries whose paths come from a pool of two names (one path occurs up to 5 times, interleaved with the other), ANM source: textures are matched in order of appearance. non-trivial = at least one texture compared"
     }
     fn tape_len(&self, _tier: Tier) -> usize { 60 }
     fn cases(&self, tier: Tier) -> u32 { tier.pick(40_000, 1_000_000) }
-    fn required_labels(&self, _tier: Tier) -> Vec<&'static str> { vec!["format:1", "format:3", "format:5", "format:7", "offset", "dir-roundtrip", "anm-source", "precedence", "precedence-format", "shared-path", "multi-entry", "exhaustive-16bit"] }
+    fn required_labels(&self, _tier: Tier) -> Vec<&'static str> { vec!["format:1", "format:3", "format:5", "format:7", "offset", "dir-roundtrip", "anm-source", "precedence", "precedence-format", "shared-path", "shared-path>=3", "multi-entry", "exhaustive-16bit"] }
     fn max_discard_fraction(&self) -> f64 { 0.05 }
 
     fn fixed_cases(&self, _tier: Tier, _known: &Known) -> Vec<Value> {
@@ -77,9 +77,10 @@ impl Property for C17 {
     fn generate(&self, tape: &mut Tape, _tier: Tier, _known: &Known) -> Value {
         let game = *tape.pick(&["th12", "th06", "th07", "th08", "th10", "th14", "th18", "th11"]);
         let mode = *tape.pick(&["roundtrip", "roundtrip", "precedence", "shared-path", "precedence-format"]);
-        let n = if mode == "shared-path" { 2 } else { 1 + tape.below(3) };
+        // shared-path: 2..5 entries whose paths come from a pool of two names, so one path occurs 2, 3, 4 or 5 times, possibly interleaved with the other
+        let n = if mode == "shared-path" { *tape.pick(&[2usize, 3, 4, 3, 5]) } else { 1 + tape.below(3) };
         let entries: Vec<Value> = (0..n).map(|i| {
-            let path = if mode == "shared-path" { "same.png".to_string() } else { format!("{}img{}.png", if tape.chance(1, 3) { "sub/" } else { "" }, i) };
+            let path = if mode == "shared-path" { if i < 2 || tape.chance(3, 4) { "same.png".to_string() } else { "other.png".to_string() } } else { format!("{}img{}.png", if tape.chance(1, 3) { "sub/" } else { "" }, i) };
             let format = *tape.pick(&[1u32, 3, 5, 7]);
             let w = 1 + tape.below(64);
             let hmax = if tape.bool() { 8 } else { 64 };
@@ -188,9 +189,10 @@ impl Property for C17 {
                     if let Some(m) = sections_equal(srcs.last().unwrap(), &r) { return Err(fail("last-anm-source-not-copied-verbatim", format!("{} ANM sources with formats {}: {}", nsrc, case["alt_formats"], m))); }
                 }
                 _ => {
-                    // two entries, one path, different pixels (and possibly different sizes): the ANM source matches them in order
+                    // several entries, one path, different pixels (and possibly different sizes): the ANM source matches them in order of appearance
                     let r = compile(game, &text, vec![ImageSrc::AnmBytes(a.clone())]).map_err(|e| fail("recompile-from-anm-failed", e))?;
                     ctx.label("shared-path"); ctx.nontrivial();
+                    if specs.iter().filter(|s| s.path == "same.png").count() >= 3 { ctx.label("shared-path>=3"); }
                     if let Some(m) = sections_equal(&a, &r) { return Err(fail("shared-path-order", m)); }
                 }
             }
